@@ -58,3 +58,26 @@ claim("C11", category="model_checking", engine="arraymc",
            "block is synced with the independent hash of the current bytes, check passes and the C06 oracle holds.",
       note="inode reuse cannot be forced on tmpfs; in order-sensitive modes the base state is rebuilt per sequence instead of restored",
       design="3 C11")
+
+claim("C07", category="fault_enumeration", engine="crashmc",
+      technique="exhaustive crash-point enumeration: every state-changing syscall index x {kill before, kill after, torn write} and every SIGINT stripe on the real binary via LD_PRELOAD",
+      text="For 4 (quick) / 9 (thorough) scenarios (pending adds only, adds+deletes+updates+moves; 1,2,3,6 levels; 1-3 content copies incl. one on a "
+           "data disk; split parity; forced autosave; pre-hash) the reference sync is traced to number its state-changing calls (numbering checked "
+           "deterministic by a second run and by prefix comparison in every killed run); sync is then killed at EVERY index before / after / in the "
+           "middle of the call, and interrupted by SIGINT at every level-0 parity write. Each crash state must leave data trees untouched, let "
+           "status/list/diff/check -a load a content file, satisfy the C06 oracle, keep every previously synced file recoverable from each single lost "
+           "device (adds only; <=N devices after SIGINT), and a re-run sync must complete and restore full recoverability (each single device + one "
+           "pair). fix after a lost disk is killed at every one of its calls and re-run: the final tree must equal the uninterrupted result (mtime "
+           "of the file cut short excepted).",
+      note="crash model: process death with completed syscalls durable (no reordering of unsynced writes); one recorded finding: torn parity write with a single level",
+      design="3 C07")
+
+claim("C08", category="fault_enumeration", engine="crashmc",
+      technique="exhaustive single-fault enumeration: every pread on every data/parity file and every pwrite on every parity file failed once (EIO/ENOSPC) via LD_PRELOAD, per io-cache depth",
+      text="For sync with pending adds (2 and 3 levels), sync -F and scrub -p full, with io-cache depths {1,3,8} (quick) / {1,3,4,8,128} (thorough), a "
+           "fault-free traced run lists every read/write call per file; each is failed once (pairs on different files/stripes in thorough). The run "
+           "must exit failing with a diagnostic, the stripe hit must not be recorded synced-and-healthy, the C06 oracle must hold, all other stripes "
+           "must end as in the fault-free run (EIO), and the next sync or fix -e + scrub -p bad must clear everything. Read-side errors are checked "
+           "strictly; the three parity-write defects are recorded findings keyed by call site.",
+      note="threaded depths run free; per-file call numbering is schedule independent (one worker per file); the tail-not-collected finding is the only schedule dependent outcome",
+      design="3 C08")
